@@ -870,8 +870,11 @@ def confusion_matrix(obs, sim, ncat=None):
 
     # Infer number of categories
     if ncat is None:
+        # (categories are numbered from 0: one more than the largest one
+        # present, so that a category absent from both series does not
+        # push the last ones out of the table)
         cats = np.concatenate([cm.index.values, cm.columns.values])
-        ncat = len(np.unique(cats))
+        ncat = int(np.max(cats))+1 if len(cats) > 0 else 0
 
     # Add missing rows and columns
     if cm.shape != (ncat, ncat):
